@@ -344,7 +344,7 @@ func isNilRef(x value) bool {
 }
 
 func (in *Interp) divZero() {
-	panic(targetPanic{in.runtimeError("integer divide by zero")})
+	panic(targetPanic{v: in.runtimeError("integer divide by zero")})
 }
 
 func isZeroInt(v value) bool {
@@ -425,7 +425,7 @@ func (in *Interp) binop(op token.Token, t types.Type, x, y value) value {
 		}
 	case token.SHL, token.SHR:
 		if kindSignedVal(y) && asInt64(y) < 0 {
-			panic(targetPanic{in.runtimeError("negative shift amount")})
+			panic(targetPanic{v: in.runtimeError("negative shift amount")})
 		}
 	}
 	return binopConcrete(op, t, x, y)
@@ -472,7 +472,7 @@ func (in *Interp) symBinop(op token.Token, x, y value) value {
 		b := in.toTerm(y)
 		if kindSigned(ky) {
 			if in.branch(ts.Bin(term.OpSLt, b, ts.Const(b.W, 0))) {
-				panic(targetPanic{in.runtimeError("negative shift amount")})
+				panic(targetPanic{v: in.runtimeError("negative shift amount")})
 			}
 		}
 		// normalise the amount to a's width, saturating
@@ -613,7 +613,7 @@ func (in *Interp) loadSymAddr(p symAddr) value {
 func (in *Interp) boundsCheck(idx64 *term.Term, n int) {
 	ok := in.ts.Bin(term.OpULt, idx64, in.ts.Const(64, uint64(n)))
 	if !in.branch(ok) {
-		panic(targetPanic{in.runtimeError(fmt.Sprintf("index out of range [symbolic] with length %d", n))})
+		panic(targetPanic{v: in.runtimeError(fmt.Sprintf("index out of range [symbolic] with length %d", n))})
 	}
 }
 
@@ -703,7 +703,7 @@ func (in *Interp) sliceBound(v value, def int64, max int) int64 {
 	if s, ok := v.(*Sym); ok {
 		t := in.to64(s)
 		if !in.branch(in.ts.Bin(term.OpULe, t, in.ts.Const(64, uint64(max)))) {
-			panic(targetPanic{in.runtimeError(fmt.Sprintf("slice bounds out of range [symbolic] with capacity %d", max))})
+			panic(targetPanic{v: in.runtimeError(fmt.Sprintf("slice bounds out of range [symbolic] with capacity %d", max))})
 		}
 		return int64(in.concretize(t))
 	}
@@ -735,7 +735,7 @@ func (in *Interp) slice(instr *ssa.Slice, x, lo, hi, max value) value {
 	h := in.sliceBound(hi, int64(Len), Cap)
 	m := in.sliceBound(max, int64(Cap), Cap)
 	if l < 0 || h < l || m < h || m > int64(Cap) {
-		panic(targetPanic{in.runtimeError(fmt.Sprintf("slice bounds out of range [%d:%d:%d] with capacity %d", l, h, m, Cap))})
+		panic(targetPanic{v: in.runtimeError(fmt.Sprintf("slice bounds out of range [%d:%d:%d] with capacity %d", l, h, m, Cap))})
 	}
 	switch x := x.(type) {
 	case string:
@@ -769,7 +769,7 @@ func (in *Interp) typeAssert(instr *ssa.TypeAssert, itf iface) value {
 	}
 	if err != "" {
 		if !instr.CommaOk {
-			panic(targetPanic{in.runtimeError(err)})
+			panic(targetPanic{v: in.runtimeError(err)})
 		}
 		return tuple{zero(instr.AssertedType), false}
 	}
@@ -948,7 +948,7 @@ func (in *Interp) callBuiltin(caller *frame, fn *ssa.Builtin, args []value) valu
 		}
 
 	case "panic":
-		panic(targetPanic{args[0]})
+		panic(targetPanic{v: args[0]})
 
 	case "recover":
 		return doRecover(caller)
